@@ -109,6 +109,15 @@ CHECKS['C13'] = dict(
     technique="Coq proof (closure preserved by merge, range arithmetic, flag algebra) + byte-exact differential check of load/merge in all permutations + interleaved lookups",
     ref="5/C13")
 
+CHECKS['C14'] = dict(
+    text="Proof (partial): with SOURCE_DATE_EPOCH set the file identifier is independent of the clock and code and database carry the same one; any two outputs a correct (unstable) sort "
+         "can produce for the same overload set coincide, whatever order the pointer-keyed set delivered them in, PROVIDED the comparator separates every two overloads — and with a tie "
+         "both orders are admissible (refuted theorem = recorded finding, reproduced with GLIBC_TUNABLES). 'No other source of nondeterminism exists' is not a theorem: exploration over "
+         "perturbations (ASLR off, environment size, LC_*/LANG, TZ, malloc settings) with sha256 comparison of every output of interrogate and interrogate_module.",
+    note=TB + "the list of nondeterminism sources comes from reading the code; locales other than C/POSIX do not exist in the image; wall-clock variation is the natural spacing of runs.",
+    technique="Coq proof (uniqueness of sorted permutation under a separating comparator; identifier function) + repeated-run differential exploration under environment perturbations",
+    ref="5/C14")
+
 PENDING = {
 }
 
